@@ -37,8 +37,13 @@ RULE = ("Histories of up to 30 (quick) / 100 (thorough) operations on one mount 
         "Non-trivial: some name of the history has its dot at position 8 or last, mixed case, "
         "needs clipping, or is illegal. Distinct = distinct case hash.")
 ASSUMPTIONS = [
-    "no leading blanks (the manual says they are ignored, the implementation answers File not "
-    "found), no control characters, no path separators or colons in names",
+    "blanks: interior blanks are legal and kept; trailing blanks of the whole name are ignored; a "
+    "name with a leading blank, a blank directly before/after the dot or a blank left at the end "
+    "of the trunk/extension by the 8.3 clipping may EITHER be refused (Bad file name; File not "
+    "found too for a leading blank) OR be accepted with those blanks ignored (manual: 'leading and "
+    "trailing spaces are ignored') - in both cases no host file with such a blank may appear, "
+    "FILES names must open, and the file must open under any capitalisation of the typed name",
+    "no control characters, no path separators or colons in names",
     "names whose trunk is AUX/CON/PRN/NUL in any case are not generated (device aliases; the "
     "case-sensitive alias test is outside this property's statement)",
     "'illegal names raise Bad file name' is asserted for OPEN (all modes), SAVE, LOAD and the new "
@@ -75,11 +80,35 @@ def normalise(name, defext=False):
         name += b'.BAS'
     up = name.upper()
     trunk, dot, ext = up.partition(b'.')
-    trunk, ext = trunk[:8], ext[:3]
+    # blanks at the edges of either part (typed there or left there by the clipping) are ignored in
+    # the key; whether such a name is accepted at all is decided by blank_class() below
+    trunk, ext = trunk[:8].strip(b' '), ext[:3].strip(b' ')
     key = trunk + (b'.' + ext if ext else b'')
-    legal = ((set(trunk) | set(ext)) <= ALLOWED and trunk == trunk.strip() and ext == ext.strip()
-             and len(trunk) >= 1)
+    legal = (set(trunk) | set(ext)) <= ALLOWED and len(trunk) >= 1
     return key, legal
+
+
+def blank_class(name, defext=False):
+    """
+    -> (lead, edge): `lead` = the name starts with a blank; `edge` = after clipping to 8.3 a blank
+    stands at the start or end of the trunk or of the extension (directly before/after the dot, at
+    the clipping boundary, or leading). The manual says "Spaces are allowed but leading and
+    trailing spaces are ignored": for such names EITHER Bad file name (File not found too for a
+    leading blank) OR acceptance with those blanks ignored is allowed.
+    """
+    name = name.rstrip(b' ')
+    if defext and b'.' not in name:
+        name += b'.BAS'
+    trunk, dot, ext = name.partition(b'.')
+    trunk, ext = trunk[:8], ext[:3]
+    edge = trunk != trunk.strip(b' ') or ext != ext.strip(b' ')
+    return name.startswith(b' '), edge
+
+
+def edge_blank_host_name(host):
+    """A host file name with a blank at the start/end of its trunk or extension."""
+    trunk, dot, ext = host.partition('.')
+    return trunk != trunk.strip(' ') or ext != ext.strip(' ')
 
 
 def recase(name, mask):
@@ -120,6 +149,7 @@ class Entry(object):
         self.host = host          # host file name (str)
         self.first = first        # first line of the content (bytes) or None if unknown
         self.kind = kind          # 'data' | 'ascii' | 'token'
+        self.typed = None         # the name as typed, when it was accepted with edge blanks
 
 
 class Run(object):
@@ -162,6 +192,14 @@ class Run(object):
         """Labels + non-triviality from the shape of a typed name."""
         trunk, dot, ext = raw.partition(b'.')
         key, legal = normalise(raw)
+        lead, edge = blank_class(raw)
+        if edge:
+            self.res.nt(True)
+            self.res.label('name:leading-blank' if lead else 'name:blank-at-part-edge')
+        elif b' ' in raw.rstrip(b' '):
+            self.res.label('name:interior-blank')
+        if raw != raw.rstrip(b' '):
+            self.res.label('name:trailing-blank')
         if not legal:
             self.res.nt(True)
             self.res.label('name:illegal')
@@ -214,6 +252,13 @@ class Run(object):
     def check_dir(self, what, key='dir'):
         actual = set(os.listdir(self.s.sandbox.z))
         expect = {e.host for e in self.model.values()} | {BYSTANDER}
+        bad = sorted(h for h in actual - expect if edge_blank_host_name(h))
+        if bad:
+            # such a file is listed by FILES under a name (blank-padded columns) that cannot open it
+            self.fail('blank.host-name-with-edge-blank', '%s: host file(s) %r have a blank next '
+                      'to the dot or at the end of trunk/extension' % (what, bad))
+            self.stop = True
+            return False
         if actual != expect:
             extra, missing = sorted(actual - expect), sorted(expect - actual)
             self.fail(key + ('.unexpected-host-file' if extra else '.missing-host-file'),
@@ -243,6 +288,15 @@ class Run(object):
         self.do_create({'o': 'create', 'how': op.get('how', 'O'),
                         'name': recase(name, op.get('case', 0)).decode('latin-1')})
 
+    def blank_refusal(self, o, lead, what):
+        """An edge-blank name was refused: Bad file name (or File not found for a leading blank)."""
+        self.res.label('blank:refused')
+        if o.err != 64 and not (lead and o.err == 53):
+            self.fail('blank.wrong-error', '%s -> %r, expected Bad file name%s or acceptance with '
+                      'the blank ignored' % (what, o.errors, ' / File not found' if lead else ''))
+        self.s.execute('CLOSE')
+        self.check_dir(what, 'blank')
+
     def do_create(self, op):
         raw = op['name'].encode('latin-1')
         how = op.get('how', 'O')
@@ -250,6 +304,7 @@ class Run(object):
         if not self.usable(raw):
             return
         key, legal = normalise(raw, defext=program)
+        lead, edge = blank_class(raw, defext=program)
         self.note_name(raw)
         m = self.marker()
         if program:
@@ -272,7 +327,7 @@ class Run(object):
         self.res.label('op:create-' + how)
         what = '%s with F$=%r' % (text.split(':')[0], raw)
         if not legal:
-            if o.err != 64:
+            if o.err != 64 and not (lead and o.err == 53):
                 self.fail('illegal.accepted' if not o.err else 'illegal.wrong-error',
                           '%s -> %r, expected Bad file name' % (what, o.errors or 'success'))
                 self.s.execute('CLOSE')
@@ -280,6 +335,9 @@ class Run(object):
                 if self.stop:
                     return
             self.check_dir(what, 'illegal')
+            return
+        if edge and o.err:
+            self.blank_refusal(o, lead, what)
             return
         if o.err:
             self.fail('legal.refused', '%s -> %r (normalised %r)' % (what, o.errors, key))
@@ -292,6 +350,9 @@ class Run(object):
         else:
             self.res.label('create:existing-key')
         e = self.model[key]
+        if edge:
+            self.res.label('blank:accepted-blank-ignored')
+            e.typed = raw
         if program:
             e.kind = 'ascii' if how == 'SA' else 'token'
             e.first = b'10 REM ' + m
@@ -319,7 +380,7 @@ class Run(object):
     def usable(self, raw):
         """Is the raw name inside the generated domain (and outside known-defect regions)?"""
         trunk = raw.partition(b'.')[0]
-        if not raw.strip(b'. ') or raw != raw.lstrip(b' ') or trunk.rstrip(b' ').upper() in RESERVED:
+        if not raw.strip(b'. ') or trunk.strip(b' ').upper() in RESERVED:
             self.res.label('skip:name-outside-domain')
             return False
         if raw.startswith(b'.'):
@@ -345,6 +406,10 @@ class Run(object):
         e = self.model[key]
         mode = op.get('mode', 'I')
         name = self.spelling(key, op.get('sp', {}))
+        if e.typed is not None and op.get('sp', {}).get('style', 0) % 4 == 3:
+            # any capitalisation of the very name (with its edge blanks) that created the file
+            name = recase(e.typed, int(op.get('sp', {}).get('case', 0)))
+            self.res.label('spelling:typed-with-edge-blank')
         self.note_name(name)
         prefix = K_DOTFILE + '.' if key.startswith(b'.') else ''
         m = self.marker()
@@ -422,6 +487,7 @@ class Run(object):
             return
         how = op.get('how', 'I')
         key, legal = normalise(raw, defext=(how == 'L'))
+        lead, edge = blank_class(raw, defext=(how == 'L'))
         if not legal or key in self.model:
             return
         if how == 'L':
@@ -436,7 +502,9 @@ class Run(object):
         if o is None:
             return
         self.res.label('op:missing-' + how)
-        if o.err != 53:
+        if edge and o.err == 64 and how != 'K':
+            self.res.label('blank:refused')
+        elif o.err != 53:
             self.fail('missing.not-reported', '%s with F$=%r -> %r, expected File not found' % (
                 text, raw, o.errors or 'success'))
             self.s.execute('CLOSE')
@@ -449,6 +517,7 @@ class Run(object):
             return
         how = op.get('how', 'I')
         key, legal = normalise(raw, defext=(how == 'L'))
+        lead, edge = blank_class(raw, defext=(how == 'L'))
         if legal:
             return
         self.note_name(raw)
@@ -466,7 +535,7 @@ class Run(object):
         if o is None:
             return
         self.res.label('op:illegal-' + how)
-        if o.err != 64:
+        if o.err != 64 and not (lead and o.err == 53):
             self.fail('illegal.accepted' if not o.err else 'illegal.wrong-error',
                       '%s with F$=%r -> %r, expected Bad file name' % (text, raw, o.errors or 'success'))
             self.s.execute('CLOSE')
@@ -565,6 +634,7 @@ class Run(object):
         e = self.model[key]
         old = self.spelling(key, op.get('sp', {}))
         newkey, legal = normalise(raw)
+        lead, edge = blank_class(raw)
         self.note_name(raw)
         self.note_name(old)
         prefix = K_DOTFILE + '.' if key.startswith(b'.') else ''
@@ -574,12 +644,15 @@ class Run(object):
         self.res.label('op:name')
         what = 'NAME %r AS %r (entry %r on host %r, new key %r)' % (old, raw, key, e.host, newkey)
         if not legal:
-            if o.err != 64:
+            if o.err != 64 and not (lead and o.err == 53):
                 self.fail('illegal.accepted' if not o.err else 'illegal.wrong-error',
                           '%s -> %r, expected Bad file name' % (what, o.errors or 'success'))
                 self.stop = not o.err
             if not self.stop:
                 self.check_dir(what, 'illegal')
+            return
+        if edge and o.err in ((64, 53) if lead else (64,)):
+            self.blank_refusal(o, lead, what)
             return
         if newkey in self.model:
             self.res.label('name:target-exists')
@@ -596,6 +669,9 @@ class Run(object):
             return
         del self.model[key]
         self.model[newkey] = Entry(newkey.decode('latin-1'), e.first, e.kind)
+        if edge:
+            self.res.label('blank:accepted-blank-ignored')
+            self.model[newkey].typed = raw
         self.res.label('name:renamed')
         if self.check_dir(what, prefix + 'name'):
             self.check_content(newkey, what)
@@ -695,7 +771,49 @@ def strat_legal_name():
     plain = st.builds(lambda t, e: t if e is None else t + '.' + e, trunk, ext)
     trail = st.builds(lambda n: n + ' ', plain)
     dot0 = st.builds(lambda e: '.' + e, strat_part(1, 3))
-    return weighted((plain, 30), (trail, 1), (dot0, 1))
+    blanky = st.builds(add_blank, plain, st.sampled_from(BLANK_PLACES), st.integers(0, 7))
+    return weighted((plain, 30), (blanky, 9), (trail, 1), (dot0, 1))
+
+
+BLANK_PLACES = ['lead', 'trail', 'in-trunk', 'before-dot', 'after-dot', 'in-ext', 'trunk-8th',
+                'trunk-9th', 'ext-3rd', 'ext-4th', 'double', 'both-sides-of-dot', 'only-ext-blank']
+
+
+def add_blank(name, where, n):
+    """Put a blank at a chosen place of a well-formed name (see BLANK_PLACES)."""
+    trunk, dot, ext = name.partition('.')
+    trunk = trunk.replace(' ', '') or 'a'
+    ext = ext.replace(' ', '')
+    fill = 'QwErTyUiOp'
+    if where == 'lead':
+        return ' ' + name
+    if where == 'trail':
+        return name + ' ' * (1 + n % 2)
+    if where == 'in-trunk':
+        t = (trunk + fill)[:max(2, len(trunk))]
+        p = 1 + n % (len(t) - 1)
+        return t[:p] + ' ' + t[p:] + dot + ext
+    if where == 'double':
+        t = (trunk + fill)[:max(2, min(6, len(trunk)))]
+        return t[:1] + '  ' + t[1:] + dot + ext
+    if where == 'before-dot':
+        return trunk[:7] + ' .' + (ext or 'txt')
+    if where == 'after-dot':
+        return trunk + '. ' + (ext or 'tx')[:2]
+    if where == 'both-sides-of-dot':
+        return trunk[:7] + ' . ' + (ext or 'tx')[:2]
+    if where == 'only-ext-blank':
+        return trunk + '. '
+    if where == 'in-ext':
+        e = (ext + fill)[:max(3, len(ext))]
+        return trunk + '.' + e[:1] + ' ' + e[1:]
+    if where == 'trunk-8th':
+        return (trunk + fill)[:7] + ' ' + 'h' + dot + ext        # clipping leaves a trailing blank
+    if where == 'trunk-9th':
+        return (trunk + fill)[:8] + ' ' + 'i' + dot + ext        # the blank is clipped away
+    if where == 'ext-3rd':
+        return trunk + '.' + (ext + fill)[:2] + ' ' + 'e'        # clipping leaves a trailing blank
+    return trunk + '.' + (ext + fill)[:3] + ' ' + 'e'            # ext-4th: clipped away
 
 
 def strat_illegal_name():
@@ -798,6 +916,31 @@ REGRESSIONS = [
         {'o': 'files', 'mask': {'kind': 'prefix', 'k': 4, 'n': 0, 'case': 0}, 'open': 1},
     ]},
 ]
+
+REGRESSIONS.append(
+    # blanks in every position (reviewer's seeded change: per-part strip check simplified to a
+    # whole-name strip): a blank next to the dot or left by clipping must never reach the host name
+    {'pre': [], 'ops': [
+        {'o': 'create', 'how': 'O', 'name': 'A .TXT'},
+        {'o': 'create', 'how': 'O', 'name': 'A. TX'},
+        {'o': 'create', 'how': 'O', 'name': 'ABCDEFG H.TXT'},
+        {'o': 'create', 'how': 'O', 'name': 'AB.CD E'},
+        {'o': 'create', 'how': 'S', 'name': 'Pr .bas'},
+        {'o': 'create', 'how': 'O', 'name': ' lead.txt'},
+        {'o': 'create', 'how': 'O', 'name': 'A B.TXT'},
+        {'o': 'create', 'how': 'O', 'name': 'trail.txt  '},
+        {'o': 'create', 'how': 'O', 'name': 'ABCDEFGH I.TXT'},
+        {'o': 'create', 'how': 'O', 'name': 'ab.c d'},
+        {'o': 'create', 'how': 'O', 'name': 'a  b'},
+        {'o': 'create', 'how': 'O', 'name': 'x. '},
+        {'o': 'files', 'mask': None, 'open': 0},
+        {'o': 'files', 'mask': None, 'open': 1},
+        {'o': 'name', 'k': 0, 'sp': {'case': 0x5555, 'style': 0}, 'name': 'new .nam'},
+        {'o': 'name', 'k': 0, 'sp': {'case': 0x5555, 'style': 0}, 'name': 'n w.n m'},
+        {'o': 'reopen', 'k': 1, 'sp': {'case': 0xffff, 'style': 3}, 'mode': 'I'},
+        {'o': 'missing', 'name': 'no .fil', 'how': 'I'},
+        {'o': 'kill', 'k': 0, 'sp': {'case': 0xffff, 'style': 0}},
+    ]})
 
 KILLS = [
     'dos_normalise_name: upper() dropped  => create.unexpected-host-file',
